@@ -174,4 +174,21 @@ theorem keep_going_never_waits (w : World K) (wt : K → K) (bell : Nat) (uc han
     (h : w.rh.wait = none) : w.afterInner wt bell uc hand d js = w.finishTick wt bell uc := by
   simp [World.afterInner, h]
 
+/-- **Look To forgets who was early**: the outer half of `initialise_line` empties both expected sets
+and both early sets and goes back to handstroke, whatever was left over from an earlier touch (a strike
+made after the touch had stood is not counted as "already rung" in the new touch). -/
+theorem look_to_forgets_early (wr : WaitR K) (h : Bool) :
+    wr.initialise.early h = [] ∧ wr.initialise.expected h = [] ∧ wr.initialise.currentHand = true := by
+  cases h <;> exact ⟨rfl, rfl, rfl⟩
+
+/-- … so every human bell of the first row of a touch is armed, without exception. -/
+theorem first_row_arms (wr : WaitR K) (bell : Nat) :
+    bell ∈ (wr.initialise.expect bell true).expected true := by
+  rcases expect_arms wr.initialise bell true with h | h
+  · exact h
+  · exfalso
+    unfold WaitR.expect at h
+    simp only [WaitR.initialise, bne_self_eq_false, Bool.false_eq_true, if_false] at h
+    simp [WaitR.early, WaitR.setExpected] at h
+
 end Wheatley.C09
